@@ -168,18 +168,24 @@ def run(run_, ctx):
                        detail="%s proven for all %s-bit values (BIT)" % (nm, info["N"] if info else "?"))
     run_.floor("B", 17)
     # ---- W / J -------------------------------------------------------------------------------------------------------
+    check_tables(run_, F, helpers, "W")
+    run_.floor("W", 56)
+    finish(run_, F, helpers, dc)
+
+
+def check_tables(run_, F, helpers, RULE):
     for which, table in (("ser", ser_table()), ("de", de_table())):
         A = dynarms.Arms(F, helpers, which)
         if A.truncated:
-            run_.bad("W", which + " exploration", "path exploration truncated", A.fn.where())
+            run_.bad(RULE, which + " exploration", "path exploration truncated", A.fn.where())
         for arm in sorted(set(table) | set(k for k in A.arms if k not in ("*", "Schema"))):
             key = "%s %s" % (which, arm)
             ps = [p for p in A.arms.get(arm, []) if A.is_success(p)]
             if arm not in table:
-                run_.bad("W", key, "schema kind has no table row", A.fn.where())
+                run_.bad(RULE, key, "schema kind has no table row", A.fn.where())
                 continue
             if not ps:
-                run_.bad("W", key, "no accepting path for this schema kind", A.fn.where())
+                run_.bad(RULE, key, "no accepting path for this schema kind", A.fn.where())
                 continue
             probs = []
             seen_rows = set()
@@ -208,8 +214,10 @@ def run(run_, ctx):
                 probs.append("expected behaviour never occurs: %s" % [table[arm][i] for i in sorted(missing)])
             if not probs and arm == "Enum" and len(seen_rows) < (4 if which == "ser" else 2):
                 probs.append("not all enum payload forms are handled")
-            run_.check(not probs, "W", key, probs[0] if probs else "wire effects and JSON shape as tabulated (%d path(s))" % len(ps), A.fn.where(), found=probs[:4])
-    run_.floor("W", 56)
+            run_.check(not probs, RULE, key, probs[0] if probs else "wire effects and JSON shape as tabulated (%d path(s))" % len(ps), A.fn.where(), found=probs[:4])
+
+
+def finish(run_, F, helpers, dc):
     # Bool decode rejects other tags, variant index lookup by get() — structural spot checks on the de arms
     A = dynarms.Arms(F, helpers, "de")
     nb = [p for p in A.arms.get("Bool", []) if p.status == "return" and not A.is_success(p)]
